@@ -343,6 +343,8 @@ pub fn chunk_length_sweep(rep: &Report, tag: &str, conformance: bool) {
 pub fn run(rep: &'static Report) {
     let seed = rep.seed;
     rep.set_rule("E-GRID vs REF: every point of the stated products (lengths x read partitions x key sets; every composition of L<=8 into chunk sizes; counter sweep; golden files) is executed once on the real code and compared byte for byte with the executable specification; distinct non-trivial = distinct (mode, direction, keys, length, partition/chunking) points with at least one chunk record compared");
+    rep.rule_add("The four library operations on threads with 128/192/256 KiB of stack (child processes) give the bytes they give on a large stack.");
+    rep.rule_add("CLI path layouts: 7 (input, output) placements incl. the same base name in different directories x 4 commands.");
     rep.rule_add("Every final-chunk length 0..=65536 at production chunk size (alone; after a full chunk for every 17th / every length): encryptor bytes == REF bytes, decryptor opens them.");
     rep.rule_add("Password channels: 8 passwords differing in blanks at their ends x {environment, controlling terminal, stdin terminal} x {password encrypt judged by REF, REF file opened by password decrypt}.");
     rep.rule_add("CLI password-file conformance in both directions x {fresh, pre-existing longer output}.");
@@ -612,6 +614,8 @@ pub fn run(rep: &'static Report) {
     golden(rep);
     crate::chan::password_files(rep, "C06");
     chunk_length_sweep(rep, "C06", true);
+    cli_path_layouts(rep);
+    small_stacks(rep);
     rep.set_exhaustive(true);
 }
 
@@ -718,6 +722,159 @@ fn call_order_conformance(rep: &'static Report) {
 
 /// CLI level: password files written by the specification decrypt with the CLI under exactly those password bytes, and
 /// files written by the CLI are read by the specification — for passwords with leading/trailing blanks and line ends.
+/// Where the files are must not matter: conforming files decrypt, and plaintexts encrypt to conforming files, with input
+/// and output named through sub-directories (same base name in different directories included), `./`, absolute paths.
+fn cli_path_layouts(rep: &Report) {
+    use crate::fx::Party;
+    use crate::proc::{self, Cmd, Scratch};
+    let seed = rep.seed;
+    let alice = Party::new(seed, "alice", "alicepw");
+    let bob = Party::new(seed, "bob", "bobpw");
+    let kr = crate::fx::keyring(&[(&alice, true), (&bob, true)]);
+    let p = plaintext(seed ^ 0x6b, 300);
+    let kf = r::write_key_file(&alice.sk, &bob.pk, &derive32(seed, "c06-path-e"), &derive32(seed, "c06-path-p"), &p, &[300]).unwrap();
+    let salt = derive32(seed, "c06-path-salt");
+    let pf = r::write_pass_file_with_key(&r::pass_key(b"filepw", &salt), &salt, &p, &[300]);
+    let layouts: Vec<(&str, &str)> = vec![("inbox/data.txt", "plain/data.txt"), ("a/b/c/in.dat", "out.dat"), ("in.dat", "deep/er/out.dat"), ("./in.dat", "./out.dat"), ("ABS/in.dat", "ABS/out.dat"), ("d1/x", "d2/x"), ("data.txt", "sub/data.txt")];
+    let mut jobs = vec![];
+    for li in 0..layouts.len() {
+        for op in ["decrypt", "encrypt", "pass-decrypt", "pass-encrypt"] {
+            jobs.push((li, op));
+        }
+    }
+    jobs.par_iter().for_each(|&(li, op)| {
+        rep.eval(1);
+        rep.nontrivial(format!("cli-path-layout-{}-{}", li, op).as_bytes());
+        let attempt = || -> Result<(), String> {
+            let sc = Scratch::new();
+            let root = sc.0.to_str().unwrap().to_string();
+            let fix = |n: &str| -> String { n.replace("ABS", &root) };
+            let (inn, outn) = (fix(layouts[li].0), fix(layouts[li].1));
+            for n in [&inn, &outn] {
+                if let Some(dir) = std::path::Path::new(n).parent() {
+                    let d = if dir.is_absolute() { dir.to_path_buf() } else { sc.0.join(dir) };
+                    let _ = std::fs::create_dir_all(d);
+                }
+            }
+            sc.write("kr.txt", kr.as_bytes());
+            let input: &[u8] = match op {
+                "decrypt" => &kf,
+                "pass-decrypt" => &pf,
+                _ => &p,
+            };
+            let ip = if std::path::Path::new(&inn).is_absolute() { std::path::PathBuf::from(&inn) } else { sc.0.join(&inn) };
+            std::fs::write(&ip, input).map_err(|e| format!("MACHINERY: {}", e))?;
+            let (args, pw): (Vec<&str>, &str) = match op {
+                "decrypt" => (vec!["decrypt", &inn, "-t", "bob", "-k", "kr.txt", "-o", &outn, "--env-pass"], "bobpw"),
+                "encrypt" => (vec!["encrypt", &inn, "-t", "bob", "-f", "alice", "-k", "kr.txt", "-o", &outn, "--env-pass"], "alicepw"),
+                "pass-decrypt" => (vec!["password", "decrypt", &inn, "-o", &outn, "--env-pass"], "filepw"),
+                _ => (vec!["password", "encrypt", &inn, "-o", &outn, "--env-pass"], "filepw"),
+            };
+            let o = proc::run(&Cmd::new(&args).env("KESTREL_PASSWORD", pw), &sc.0);
+            o.well_behaved()?;
+            let op_path = if std::path::Path::new(&outn).is_absolute() { std::path::PathBuf::from(&outn) } else { sc.0.join(&outn) };
+            let got = std::fs::read(&op_path).unwrap_or_default();
+            let good = o.ok()
+                && match op {
+                    "decrypt" | "pass-decrypt" => got == p,
+                    "encrypt" => matches!(r::read_key_file(&bob.sk, &got), Ok(k) if k.parsed.plaintext == p && k.sender == alice.pk),
+                    _ => got.len() >= 36 && matches!(r::read_pass_file_with_key(&r::pass_key(b"filepw", got[4..36].try_into().unwrap()), &got), Ok(k) if k.plaintext == p),
+                };
+            if !good {
+                return Err(format!("kestrel {} with input '{}' and output '{}': {} ({} bytes at the output path)", op, layouts[li].0, layouts[li].1, o.summary(), got.len()));
+            }
+            Ok(())
+        };
+        if let Err(e) = attempt() {
+            if e.starts_with("MACHINERY") {
+                crate::report::machinery(&e);
+            }
+            if let Err(e2) = attempt() {
+                rep.violation("cli/path-layout", json!({"kind":"cli-conf","layout":[layouts[li].0, layouts[li].1],"op":op}), e2);
+            }
+        }
+    });
+    rep.extra("cli_path_layout_runs", json!(jobs.len()));
+}
+
+/// `kv stack-child <stack_kib>`: the four library operations on a thread whose stack has the given size; prints the hex
+/// SHA-256 of each output. 128 KiB is the smallest default thread stack among common C libraries (musl).
+pub fn stack_child_main(a: &[String]) -> ! {
+    let kib: usize = a[0].parse().unwrap_or(128);
+    let seed: u64 = a[1].parse().unwrap_or(1);
+    let t = std::thread::Builder::new().stack_size(kib * 1024).spawn(move || {
+        const CSZ: usize = 65536;
+        let ids = idents(seed);
+        let p = plaintext(seed ^ 0x57ac, CSZ + 77);
+        let e = derive32(seed, "stack-e");
+        let pay = derive32(seed, "stack-pay");
+        let salt = derive32(seed, "stack-salt");
+        let mut lines = vec![];
+        let mut out = Vec::new();
+        let mut src: &[u8] = &p;
+        let r1 = run_rw(&Subject::KeyEnc { s: hx(&ids[0].sk), s_pub: hx(&ids[0].pk), r_pub: hx(&ids[1].pk), e: hx(&e), payload: hx(&pay) }, &mut src, &mut out);
+        lines.push(format!("key_encrypt {} {}", r1.is_ok(), hx(&r::sha256(&out))));
+        let kf = out.clone();
+        let mut out2 = Vec::new();
+        let mut src2: &[u8] = &kf;
+        let r2 = run_rw(&Subject::KeyDec { r: hx(&ids[1].sk), r_pub: hx(&ids[1].pk) }, &mut src2, &mut out2);
+        lines.push(format!("key_decrypt {} {}", r2.is_ok(), hx(&r::sha256(&out2))));
+        let mut out3 = Vec::new();
+        let mut src3: &[u8] = &p;
+        let r3 = run_rw(&Subject::PassEnc { pw: hx(b"stackpw"), salt: hx(&salt) }, &mut src3, &mut out3);
+        lines.push(format!("pass_encrypt {} {}", r3.is_ok(), hx(&r::sha256(&out3))));
+        let mut out4 = Vec::new();
+        let mut src4: &[u8] = &out3;
+        let r4 = run_rw(&Subject::PassDec { pw: hx(b"stackpw") }, &mut src4, &mut out4);
+        lines.push(format!("pass_decrypt {} {}", r4.is_ok(), hx(&r::sha256(&out4))));
+        lines
+    });
+    match t.map(|h| h.join()) {
+        Ok(Ok(lines)) => {
+            for l in lines {
+                println!("{}", l);
+            }
+            std::process::exit(0)
+        }
+        _ => std::process::exit(3),
+    }
+}
+
+/// The library's need for stack is part of "decrypts": the four operations on threads with 128 / 192 / 256 KiB of stack
+/// (child processes, so that an overflow is attributed) produce exactly the bytes they produce on a large stack.
+fn small_stacks(rep: &Report) {
+    use std::os::unix::process::ExitStatusExt;
+    let exe = std::env::current_exe().unwrap_or_else(|_| crate::report::machinery("current_exe"));
+    let run = |kib: usize| std::process::Command::new(&exe).args(["stack-child", &kib.to_string(), &rep.seed.to_string()]).stdin(std::process::Stdio::null()).stderr(std::process::Stdio::null()).output();
+    let base = match run(8192) {
+        Ok(o) if o.status.success() => String::from_utf8_lossy(&o.stdout).to_string(),
+        other => crate::report::machinery(&format!("the stack child does not run on an 8 MiB stack: {:?}", other.map(|o| o.status))),
+    };
+    // the four results on the large stack are themselves checked: both encryptions are what REF reads back
+    if base.lines().count() != 4 || base.lines().any(|l| !l.contains(" true ")) {
+        rep.violation("lib/small-stack", json!({"kind":"stack","kib":8192}), format!("the four operations do not all succeed on an 8 MiB stack: {:?}", base));
+        return;
+    }
+    for kib in [128usize, 192, 256] {
+        rep.eval(1);
+        rep.nontrivial(format!("small-stack-{}", kib).as_bytes());
+        match run(kib) {
+            Err(e) => crate::report::machinery(&format!("cannot start the stack child: {}", e)),
+            Ok(o) => {
+                let got = String::from_utf8_lossy(&o.stdout).to_string();
+                if !o.status.success() || got != base {
+                    rep.violation(
+                        "lib/small-stack",
+                        json!({"kind":"stack","kib":kib}),
+                        format!("key_encrypt / key_decrypt / pass_encrypt / pass_decrypt of a 2-chunk plaintext on a thread with {} KiB of stack: {}", kib, if let Some(s) = o.status.signal() { format!("the process died by signal {} (stack overflow)", s) } else if !o.status.success() { format!("exit status {:?}", o.status.code()) } else { "results differ from those on a large stack".to_string() }),
+                    );
+                }
+            }
+        }
+    }
+    rep.extra("small_stack_sizes_kib", json!([128, 192, 256]));
+}
+
 fn cli_conformance(rep: &Report) {
     use crate::proc::{self, Cmd, Scratch};
     let seed = rep.seed;
@@ -770,6 +927,10 @@ fn cli_conformance(rep: &Report) {
 }
 
 pub fn replay(rep: &'static Report, case: &Value) {
+    if case["kind"] == "stack" {
+        small_stacks(rep);
+        return;
+    }
     if case["kind"] == "length-sweep" {
         chunk_length_sweep(rep, "C06", true);
         return;
